@@ -158,6 +158,10 @@ class LikelihoodModelResults:
         _cov = self.vcov(column=column)
         if _cov.ndim == 2:
             _cov = np.diag(_cov)
+        elif _cov.ndim == 3:
+            # one dispersion per response: (columns, columns, responses)
+            _cov = np.diagonal(_cov, axis1=0, axis2=1).T
+            _theta = _theta.reshape(_cov.shape)
         _t = _theta * pos_recipr(np.sqrt(_cov))
         return _t
 
@@ -201,7 +205,10 @@ class LikelihoodModelResults:
             if column.shape == ():
                 return self.cov[column, column] * dispersion
             else:
-                return self.cov[column][:, column] * dispersion
+                tmp = self.cov[column][:, column]
+                if np.ndim(dispersion) == 0:
+                    return tmp * dispersion
+                return tmp[:, :, np.newaxis] * dispersion
 
         elif matrix is not None:
             if other is None:
